@@ -175,6 +175,9 @@ const (
 	algAES256  = "http://www.w3.org/2001/04/xmlenc#aes256-cbc"
 	algGCM     = "http://www.w3.org/2009/xmlenc11#aes256-gcm"
 	algUnknown = "http://example.com/custom-protection#v1"
+	// encryption (not obfuscation) algorithms whose identifiers live next to the obfuscation ones
+	algAdobeAES  = "http://ns.adobe.com/adept/enc#aes128-cbc"
+	algIDPFOther = "http://www.idpf.org/2008/embedding-extra"
 )
 
 func obfuscation(alg string) bool { return alg == algIDPF || alg == algAdobe }
@@ -577,7 +580,7 @@ func genDRM(t *rapid.T) Case {
 		}
 		seen[it] = true
 		c.Enc = append(c.Enc, Enc{Item: it,
-			Algorithm: rapid.SampledFrom([]string{algIDPF, algIDPF, algAdobe, algAES128, algAES256, algGCM, algUnknown}).Draw(t, "alg"),
+			Algorithm: rapid.SampledFrom([]string{algIDPF, algIDPF, algAdobe, algAES128, algAES256, algGCM, algUnknown, algAdobeAES, algIDPFOther}).Draw(t, "alg"),
 			Spelling:  rapid.SampledFrom([]string{"plain", "plain", "encoded", "dot", "extesc"}).Draw(t, "spelling")})
 	}
 	c.EmptyEnc = len(c.Enc) == 0 && rapid.Bool().Draw(t, "emptyEnc")
